@@ -88,7 +88,7 @@ type tagImpl struct {
 func (t *tagImpl) Unary(c *dyn.Call) (proto.Message, error) {
 	t.calls.Add(1)
 	m := dynamicpb.NewMessage(c.Desc.Output())
-	m.Set(m.Descriptor().Fields().ByName("s"), protoreflect.ValueOfString(t.tag))
+	m.Set(m.Descriptor().Fields().ByName("s"), protoreflect.ValueOfString(t.tag+"|"+c.Method))
 	return m, nil
 }
 func (t *tagImpl) Stream(c *dyn.Call) error { return status.Error(codes.Unimplemented, "n/a") }
@@ -97,7 +97,7 @@ func (w *bWorld) newBackend(name string, files []protoreflect.FileDescriptor, sv
 	b := env.NewBackend(name, files, svcs)
 	b.Unary = func(ctx context.Context, method string, req, reply proto.Message) error {
 		r := reply.ProtoReflect()
-		r.Set(r.Descriptor().Fields().ByName("s"), protoreflect.ValueOfString(name))
+		r.Set(r.Descriptor().Fields().ByName("s"), protoreflect.ValueOfString(name+"|"+method))
 		return nil
 	}
 	return b
@@ -306,7 +306,10 @@ type c11Probe struct {
 }
 
 func (w *bWorld) probes() []c11Probe {
-	decode := func(body []byte, js bool) string {
+	// decode returns the owner tag that answered; the answer also names the method the owner
+	// was invoked with: if that is not the method the request was for, the result is
+	// "<owner> as <method>", which matches no owner.
+	decode := func(body []byte, js bool, wantMethod string) string {
 		m := dynamicpb.NewMessage(w.rsp)
 		var err error
 		if js {
@@ -317,7 +320,11 @@ func (w *bWorld) probes() []c11Probe {
 		if err != nil {
 			return ""
 		}
-		return m.Get(w.rsp.Fields().ByName("s")).String()
+		owner, method, _ := strings.Cut(m.Get(w.rsp.Fields().ByName("s")).String(), "|")
+		if method != wantMethod {
+			return owner + " as " + method
+		}
+		return owner
 	}
 	reqMsg := dynamicpb.NewMessage(w.req)
 	pb, _ := proto.Marshal(reqMsg)
@@ -332,7 +339,7 @@ func (w *bWorld) probes() []c11Probe {
 					return "", 0, r.Panic
 				}
 				if r.Code == 200 {
-					return decode(r.Body, true), r.Code, ""
+					return decode(r.Body, true, "/vb."+svc+"/M1"), r.Code, ""
 				}
 				return "", r.Code, ""
 			}},
@@ -342,7 +349,7 @@ func (w *bWorld) probes() []c11Probe {
 					return "", 0, r.Panic
 				}
 				if r.HTTPCode == 200 {
-					return decode(r.Body, true), 200, ""
+					return decode(r.Body, true, "/vb."+svc+"/M2"), 200, ""
 				}
 				return "", r.HTTPCode, ""
 			}},
@@ -352,7 +359,7 @@ func (w *bWorld) probes() []c11Probe {
 					return "", 0, r.Panic
 				}
 				if r.Status != nil && r.Status.Code == 0 && len(r.Msgs) == 1 {
-					return decode(r.Msgs[0], false), 200, ""
+					return decode(r.Msgs[0], false, "/vb."+svc+"/M1"), 200, ""
 				}
 				if r.Status != nil {
 					return "", 1000 + r.Status.Code, ""
@@ -461,7 +468,9 @@ func c11Check(w *bWorld, history []int, all bool, probes []c11Probe) (viol []rep
 						ok = true
 					}
 				}
-				if !ok {
+				if !ok && strings.Contains(served, " as ") {
+					mk("delivered-as-another-method", fmt.Sprintf("%s was delivered to %s", pr.name, served), step)
+				} else if !ok {
 					mk("served-by-dropped-or-unregistered", fmt.Sprintf("%s answered by %q, live owners of vb.%s are %v", pr.name, served, pr.svc, owners), step)
 				}
 				seenOwners[served] = true
